@@ -3,6 +3,7 @@ premultiplication {True, False, None} x dtype {float32, float64} x {dispatching 
 x {fresh, pickle round trip} on generated G, d, C (under-, over- and exactly determined): misfit(m),
 gradient(m), forward(m) must lie in the Coq-Interval enclosure of the residual-form model (tolerance =
 working precision of the dtype times the size of the terms), bounds add +inf outside the box."""
+import copy
 import math
 import pickle
 import random
@@ -103,13 +104,31 @@ def run(tier, seed):
                                         {"problem": {k: (v.tolist() if hasattr(v, 'tolist') else v) for k, v in pr.items() if k in ("G", "d", "ck", "shape")}}))
             continue
         if rnd.random() < 0.3:
+            # bounds given before the round trip (on the wrapper or on the back end it wraps) must survive it
+            pre = rnd.choice(["none", "self", "backend"])
+            holder = (lambda o: o) if pre != "backend" or not hasattr(obj, "Distribution") else (lambda o: o.Distribution)
             try:
-                obj = pickle.loads(pickle.dumps(obj))
-                desc += ", pickled"
+                if pre != "none":
+                    holder(obj).update_bounds(xa - 1.0, xa + 1.0)
+                how = rnd.choice(["pickled", "deep-copied"])
+                obj = pickle.loads(pickle.dumps(obj)) if how == "pickled" else copy.deepcopy(obj)
+                desc += f", {how}" + (f" with bounds set on {pre} before" if pre != "none" else "")
                 dist["pickled"] += 1
             except Exception as e:  # noqa
-                violations.append(Violation("pickle-failed", f"{desc}: pickle round trip raised {type(e).__name__}: {e}", {"desc": desc}))
+                violations.append(Violation("pickle-failed", f"{desc}: pickle / deepcopy round trip raised {type(e).__name__}: {e}", {"desc": desc}))
                 continue
+            if pre != "none":
+                with numpy.errstate(all="ignore"), warnings.catch_warnings():
+                    warnings.simplefilter("ignore")
+                    try:
+                        arg = (lambda a: a.astype(work) if via == "concrete" else a.copy())
+                        outside = float(obj.misfit(arg(xa + 2.0)))
+                        if outside != float("inf"):
+                            violations.append(Violation("bounds-lost-in-round-trip", f"{desc}: misfit outside the box is {outside}, not +inf", {"desc": desc}))
+                        holder(obj).update_bounds(None, None)
+                    except Exception as e:  # noqa
+                        violations.append(Violation("evaluation-raised", f"{desc}: misfit outside the box raised {type(e).__name__}: {e}", {"desc": desc}))
+                        continue
         dist["sparse" if "sparse G" in desc else "dense"] += 1
         dist[work.name] += 1
         dist[via] += 1
